@@ -199,7 +199,37 @@ out:
     free(a.s);
 }
 
-static void run(long i, vh_rng *r) { if (i % 3 == 0) run_fe(i, r); else run_dec(i, r); }
+/* ---------- C: feature module (cepstra -> normalisation -> dynamic features), every type and normalisation mode ---------- */
+static void run_feat(long i, vh_rng *r)
+{
+    static const char *types[] = { "1s_c_d_dd", "1s_c_d_dd", "s2_4x", "s3_1x39", "1s_c_d_ld_dd", "cep_dcep", "cep", "1s_3c", "13:2" };
+    config_t *cf = config_init(NULL), *fcf = config_init(NULL); fe_t *fe; feat_t *fcb; const char *type = VH_PICK(r, types), *cmn = VH_PICK(r, ((const char *[]){ "batch", "batch", "live", "none" }));
+    int varnorm = vh_chance(r, 0.4), kind = vh_chance(r, 0.5) ? VH_PICK(r, ((int[]){ 0, 0, 3, 1 })) : (int)vh_below(r, NSIG), batch = vh_chance(r, 0.6), dim, k, nfr = 0, f, st, q; long n = VH_PICK(r, ((long[]){ 410, 1000, 4000, 16000, 30000 })), bad = 0; int16_t *s, *p16; size_t m; mfcc_t **cep, ***ft;
+    config_set_bool(fcf, "dither", 0);
+    fe = fe_init(fcf); config_free(fcf);
+    config_set_str(cf, "feat", type); config_set_str(cf, "cmn", cmn); config_set_bool(cf, "varnorm", varnorm); config_set_str(cf, "cmninit", "40,3,-1");
+    vh_ctx("feat_init"); fcb = feat_init(cf); config_free(cf);
+    if (!fe || !fcb) { vh_inconc("feature configuration refused"); if (fe) fe_free(fe); if (fcb) feat_free(fcb); return; }
+    dim = fe_get_output_size(fe);
+    s = (int16_t *)malloc(sizeof(int16_t) * (size_t)(n + 1)); make_signal(r, kind, s, n);
+    if (kind == 0 && vh_chance(r, 0.5)) s[vh_below(r, 200)] = 32767;     /* digital silence with one impulse in the first frame */
+    cep = (mfcc_t **)ckd_calloc_2d((size_t)(n / 160 + 8), (size_t)dim, sizeof(mfcc_t));
+    p16 = s; m = (size_t)n; fe_start(fe); k = fe_process_int16(fe, &p16, &m, cep, (int)(n / 160 + 4)); if (k > 0) nfr = k; k = fe_end(fe, cep + nfr, 1); if (k > 0) nfr += k;
+    vh_desc("feature module: feat=%s cmn=%s varnorm=%d, %s, %d frames, %s", type, cmn, varnorm, sig_name[kind], nfr, batch ? "one whole-utterance call" : "blocks");
+    if (nfr > 0) {
+        ft = feat_array_alloc(fcb, nfr + 16);
+        if (batch) { int nn = nfr; vh_ctx("feat_s2mfc2feat_live(whole utterance)"); k = feat_s2mfc2feat_live(fcb, cep, &nn, 1, 1, ft); }
+        else { int pos = 0, out = 0; k = 0; while (pos < nfr) { int nn = vh_range(r, 1, 40), got; if (pos + nn > nfr) nn = nfr - pos; vh_ctx("feat_s2mfc2feat_live(block)"); got = feat_s2mfc2feat_live(fcb, cep + pos, &nn, pos == 0, pos + nn >= nfr, ft + out); if (got < 0 || nn <= 0) break; out += got; pos += nn; } k = out; }
+        for (f = 0; f < k; ++f) for (st = 0; st < (int)feat_dimension1(fcb); ++st) for (q = 0; q < (int)feat_dimension2(fcb, st); ++q) if (!isfinite(ft[f][st][q])) { if (!bad) vh_viol(vh_path("feature_not_finite|%s|cmn_%s|varnorm_%d", sig_name[kind], cmn, varnorm), "feature value %g in frame %d stream %d (feat=%s, %d frames, %s)", (double)ft[f][st][q], f, st, type, nfr, batch ? "whole utterance" : "blocks"); ++bad; }
+        if (fcb->cmn_struct) { cmn_t *cm = fcb->cmn_struct; for (q = 0; q < cm->veclen; ++q) if (!isfinite(cm->cmn_mean[q]) || (cm->cmn_var && !isfinite(cm->cmn_var[q])) || !isfinite(cm->sum[q])) { vh_viol(vh_path("cmn_state_not_finite|feature_module|%s|varnorm_%d", sig_name[kind], varnorm), "normalisation state component %d: mean %g, var %g, sum %g", q, (double)cm->cmn_mean[q], cm->cmn_var ? (double)cm->cmn_var[q] : 0.0, (double)cm->sum[q]); break; } }
+        vh_count("feature_frames_checked", k); feat_array_free(ft);
+    }
+    vh_count("feat_runs", 1); if (varnorm) vh_count("feat_runs_with_varnorm", 1); if (kind == 0) vh_count("feat_runs_on_digital_silence", 1);
+    vh_nontrivial("feat/%s/%s/%d/%d/%ld/%d", type, cmn, varnorm, kind, n, (int)(i % 89));
+    ckd_free_2d(cep); free(s); fe_free(fe); feat_free(fcb);
+}
+
+static void run(long i, vh_rng *r) { if (i % 3 == 0) { if (i % 2) run_feat(i, r); else run_fe(i, r); } else run_dec(i, r); }
 static void teardown(void) { vd_drop_decoders(); }
 static const vh_harness H = { "h_c18", ncases, setup, run, teardown, 600 };
 int main(int argc, char **argv) { return vh_main(argc, argv, &H); }
